@@ -579,6 +579,66 @@ theorem stl_mesh_oob (P : Params α) (m : Mesh α) (ps : List (P3 α)) (hp : m.p
   have : ps[a]? = none := List.getElem?_eq_none ha
   simp [writeMesh, writeTris, hp, hi, chunks, buildTris, this, Except.map]
 
+/-- `stl_mesh_roundtrip` is the proved part of the normal clause (`RoundTrips` lets the normal attribute be
+    absent when every stored normal is zero); the full clause is `C07_geometric_normal_full` below. -/
+theorem stl_mesh_roundtrip_partial [DecidableEq α] (P : Params α) (hq : ∀ x, quiet (P.q32 x) = P.q32 x)
+    (m : Mesh α) (hwf : WF m) (hn : m.indices.length / 3 < 2 ^ 32) :
+    ∃ bs r, writeMesh P m = .ok bs ∧ bs.length = 84 + 50 * (m.indices.length / 3) ∧
+      readMesh P bs = .ok r ∧ RoundTrips P m r = true := stl_mesh_roundtrip P hq m hwf hn
+
+/-- the normal clause at full strength (as C07 states it): every read-back triangle has a facet normal,
+    the stored one if non-zero, else the geometric one — also "when none are stored" -/
+def C07_geometric_normal_full [DecidableEq α] (P : Params α) : Prop :=
+  ∀ m : Mesh α, WF m → m.indices ≠ [] → m.indices.length / 3 < 2 ^ 32 →
+    ∃ bs r, writeMesh P m = .ok bs ∧ readMesh P bs = .ok r ∧ FullNormals P m r = true
+
+/-- a concrete precision bundle over `Nat` payloads (small values only: never a NaN pattern) -/
+def natParams : Params Nat where
+  q32 n := BitVec.ofNat 32 (n % 1000)
+  up w := w.toNat
+  avgNormal a _ _ := a
+  flatNormal a _ _ := a
+
+theorem natParams_hq : ∀ x, quiet (natParams.q32 x) = natParams.q32 x := by
+  intro x
+  have h : isNaN32 (BitVec.ofNat 32 (x % 1000)) = false := by
+    simp only [isNaN32, BitVec.toNat_ofNat, decide_eq_false_iff_not]; omega
+  simp [natParams, quiet, h]
+
+/-- the hypothesis `hq` of `stl_mesh_roundtrip` is satisfiable -/
+example : ∃ P : Params Nat, ∀ x, quiet (P.q32 x) = P.q32 x := ⟨natParams, natParams_hq⟩
+
+/-- one triangle, no normal attribute -/
+def noNormalsWitness : Mesh Nat := ⟨[0, 1, 2], some [⟨0, 0, 0⟩, ⟨1, 0, 0⟩, ⟨0, 1, 0⟩], none⟩
+
+theorem noNormalsWitness_wf : WF noNormalsWitness := ⟨rfl, _, rfl, by decide, by intro ns h; cases h⟩
+
+/-- **Known finding (closed witness)**: the one-triangle mesh without normals is written and read back
+    with NO normal attribute — `RoundTrips` holds, `FullNormals` does not. -/
+theorem stl_no_normals_witness :
+    ∃ bs r, writeMesh natParams noNormalsWitness = .ok bs ∧ readMesh natParams bs = .ok r ∧
+      RoundTrips natParams noNormalsWitness r = true ∧ r.nrm = none ∧
+      FullNormals natParams noNormalsWitness r = false := by
+  obtain ⟨bs, r, hw, _, hr, hrt⟩ := stl_mesh_roundtrip natParams natParams_hq noNormalsWitness noNormalsWitness_wf (by decide)
+  have hany : anyStored natParams noNormalsWitness.nrm (chunks noNormalsWitness.indices) = false := by decide
+  have hnone : r.nrm = none := by
+    unfold RoundTrips at hrt
+    simp only [noNormalsWitness] at hrt hany
+    simp only [hany, Bool.and_eq_true] at hrt
+    have := hrt.2
+    simpa using this
+  refine ⟨bs, r, hw, hr, hrt, hnone, ?_⟩
+  simp [FullNormals, noNormalsWitness, hnone]
+
+/-- hence the full-strength clause is false of the (model of the) code -/
+theorem stl_geometric_normal_counterexample : ¬ C07_geometric_normal_full natParams := by
+  intro h
+  obtain ⟨bs, r, hw, hr, hf⟩ := h noNormalsWitness noNormalsWitness_wf (by decide) (by decide)
+  obtain ⟨bs', r', hw', hr', _, _, hf'⟩ := stl_no_normals_witness
+  rw [hw] at hw'; cases hw'
+  rw [hr] at hr'; cases hr'
+  rw [hf] at hf'; cases hf'
+
 end mesh
 
 end C07
